@@ -114,8 +114,11 @@ def run(ctx):
     bad = explore(ctx, rep, corp, "corpus")
     rep.extra["corpus_d1_lookahead_after_budget"] = "passes (repaired)" if not bad else "FAILS: D1 is back"
     r = ctx.sub_rng("gen")
-    scs = [R.gen_scenario(r, PROF if i % 3 else PROF_BACKLOG) for i in range(ctx.n(450, 15000))]
+    scs = [R.gen_scenario(r, PROF if i % 3 else PROF_BACKLOG) for i in range(ctx.n(450, 30000))]
     broken = explore(ctx, rep, scs, "main")
+    if not ctx.quick:
+        broken = explore(ctx, rep, R.grid_scenarios(), "grid") or broken
+        rep.extra["small_scope_grid"] = "A<=3 x P<=2 x N in {None,1,2,3} x 13 stop instants x 4 five-message patterns"
     if (broken or any(not o["ok"] for o in rep.obligations)) and not rep.failures:
         r2 = ctx.sub_rng("search")
         explore(ctx, rep, [R.gen_scenario(r2, PROF_BACKLOG) for _ in range(ctx.n(2000, 20000))], "search")
